@@ -225,7 +225,7 @@ def run_cases(ctx, cases):
 
 def run(ctx):
     ctx.make_overlay(need_kernel=True)
-    ctx.regen_all(needed=("py2v_diag.py",))  # Gen/DiagGen.v: phase, max_phase_gap, phase_coverage, periods_spanned, MAP index as the source has them now
+    ctx.regen_all(needed=("py2v_diag.py", "py2v_data.py"))  # Gen/DiagGen.v: phase, max_phase_gap, phase_coverage, periods_spanned, MAP index as the source has them now
     ok = ctx.build_models(MODELS)
     if ok:
         ctx.build_props()
